@@ -110,10 +110,10 @@ func TestC16(t *testing.T) {
 
 	p = c.rec.NewPart("rapid_fragments", "rapid over the SQL fragment grammar", true, false, "")
 	g := gen.SQLInput()
-	c.Rapid(p, 8, pick(25000, 600000), func(rt *rapid.T, sh int) ev.Case { return c16Case(g.Draw(rt, "in")) })
+	c.Rapid(p, 8, pick(60000, 800000), func(rt *rapid.T, sh int) ev.Case { return c16Case(g.Draw(rt, "in")) })
 	p = c.rec.NewPart("rapid_bytes", "rapid: arbitrary byte strings up to 64 bytes", true, false, "")
 	bg := gen.Bytes(64)
-	c.Rapid(p, 4, pick(20000, 500000), func(rt *rapid.T, sh int) ev.Case { return c16Case(bg.Draw(rt, "in")) })
+	c.Rapid(p, 4, pick(50000, 600000), func(rt *rapid.T, sh int) ev.Case { return c16Case(bg.Draw(rt, "in")) })
 	p = c.rec.NewPart("rapid_corpus_mutation", "rapid: repository fixtures with 1-4 edits", true, false, "")
 	c.Rapid(p, 4, pick(15000, 300000), func(rt *rapid.T, sh int) ev.Case {
 		return c16Case(gen.Mutate(rt, rapid.SampledFrom(corp().SQL).Draw(rt, "base"), gen.FragSQL))
